@@ -1,7 +1,7 @@
 #!/bin/bash
-# verify a sub-agent's seeded change: ./tools/verify_seed.sh <ID> [name]  (reads /tmp/seed-out/<ID>/, writes seeded/<name>/)
+# verify a sub-agent's seeded change: ./tools/verify_seed.sh <ID> [name]  (reads ${SEED_SRC:-/tmp/seed-out}/<ID>/, writes seeded/<name>/)
 # 1. patch applies to a pristine copy of /repo  2. demo exits 0 on pristine, 1 on patched  3. selected repo tests unchanged
-ID="$1"; NAME="${2:-$1}"; SRC="/tmp/seed-out/$ID"
+ID="$1"; NAME="${2:-$1}"; SRC="${SEED_SRC:-/tmp/seed-out}/$ID"
 cd "$(dirname "$(readlink -f "$0")")/.." || exit 2
 PY=/venv/bin/python; case "$ID" in C11|C12|C13) PY=/opt/veriftools/pyvenv/bin/python;; esac
 tmp=$(mktemp -d /tmp/vp-vseed-XXXXXX)
